@@ -1,4 +1,4 @@
-"""./check selftest setup | schema | determinism [props...] | sensitivity [mutant...]"""
+"""./check selftest setup | schema | determinism [props...] | sensitivity [mutant...] | noalarm [variant...]"""
 import json
 import os
 import subprocess
@@ -62,6 +62,9 @@ def main(argv):
         return m(argv[1:])
     if argv[0] == 'sensitivity':
         from selftest.sensitivity import main as m
+        return m(argv[1:])
+    if argv[0] == 'noalarm':
+        from selftest.noalarm import main as m
         return m(argv[1:])
     print(__doc__)
     return 2
